@@ -359,6 +359,23 @@ macro_rules! build_settings {
         let sc: &Scenario = $sc;
         let rec: &Shared = $rec;
         let mut settings = $settings;
+        let mut pending_el: Option<(String, ElementContentHandlers<'static, $H>)> = None;
+        let mut pending_doc: Option<DocumentContentHandlers<'static, $H>> = None;
+        macro_rules! flush_el {
+            () => {
+                if let Some((s, e)) = pending_el.take() {
+                    let selector = parse_selector(&s).map_err(|e| format!("selector {s:?}: {e}"))?;
+                    settings = settings.append_element_content_handler((Cow::Owned(selector), e));
+                }
+            };
+        }
+        macro_rules! flush_doc {
+            () => {
+                if let Some(d) = pending_doc.take() {
+                    settings = settings.append_document_content_handler(d);
+                }
+            };
+        }
         for (reg, h) in sc.handlers.iter().enumerate() {
             match h {
                 HandlerSpec::Element { sel, ops } => {
@@ -379,10 +396,16 @@ macro_rules! build_settings {
                         }
                         Ok(())
                     };
-                    settings = settings.append_element_content_handler((
-                        Cow::Owned(selector),
-                        ElementContentHandlers::default().element(handler),
-                    ));
+                    let _ = selector;
+                    let joinable = sc.joins.contains(&reg)
+                        && matches!(&pending_el, Some((s, e)) if s == sel && e.element.is_none());
+                    if joinable {
+                        let (s, e) = pending_el.take().unwrap();
+                        pending_el = Some((s, e.element(handler)));
+                    } else {
+                        flush_el!();
+                        pending_el = Some((sel.clone(), ElementContentHandlers::default().element(handler)));
+                    }
                 }
                 HandlerSpec::Text { sel, ops, when } => {
                     let rec2 = rec.clone();
@@ -407,15 +430,26 @@ macro_rules! build_settings {
                                 Ok(s) => s,
                                 Err(e) => return Err(format!("selector {sel:?}: {e}")),
                             };
-                            settings = settings.append_element_content_handler((
-                                Cow::Owned(selector),
-                                ElementContentHandlers::default().text(handler),
-                            ));
+                            let _ = selector;
+                            let joinable = sc.joins.contains(&reg)
+                                && matches!(&pending_el, Some((s, e)) if s == sel && e.text.is_none());
+                            if joinable {
+                                let (s, e) = pending_el.take().unwrap();
+                                pending_el = Some((s, e.text(handler)));
+                            } else {
+                                flush_el!();
+                                pending_el = Some((sel.clone(), ElementContentHandlers::default().text(handler)));
+                            }
                         }
                         None => {
-                            settings = settings.append_document_content_handler(
-                                DocumentContentHandlers::default().text(handler),
-                            );
+                            let joinable = sc.joins.contains(&reg)
+                                && matches!(&pending_doc, Some(d) if d.text.is_none());
+                            if joinable {
+                                pending_doc = Some(pending_doc.take().unwrap().text(handler));
+                            } else {
+                                flush_doc!();
+                                pending_doc = Some(DocumentContentHandlers::default().text(handler));
+                            }
                         }
                     }
                 }
@@ -439,15 +473,26 @@ macro_rules! build_settings {
                                 Ok(s) => s,
                                 Err(e) => return Err(format!("selector {sel:?}: {e}")),
                             };
-                            settings = settings.append_element_content_handler((
-                                Cow::Owned(selector),
-                                ElementContentHandlers::default().comments(handler),
-                            ));
+                            let _ = selector;
+                            let joinable = sc.joins.contains(&reg)
+                                && matches!(&pending_el, Some((s, e)) if s == sel && e.comments.is_none());
+                            if joinable {
+                                let (s, e) = pending_el.take().unwrap();
+                                pending_el = Some((s, e.comments(handler)));
+                            } else {
+                                flush_el!();
+                                pending_el = Some((sel.clone(), ElementContentHandlers::default().comments(handler)));
+                            }
                         }
                         None => {
-                            settings = settings.append_document_content_handler(
-                                DocumentContentHandlers::default().comments(handler),
-                            );
+                            let joinable = sc.joins.contains(&reg)
+                                && matches!(&pending_doc, Some(d) if d.comments.is_none());
+                            if joinable {
+                                pending_doc = Some(pending_doc.take().unwrap().comments(handler));
+                            } else {
+                                flush_doc!();
+                                pending_doc = Some(DocumentContentHandlers::default().comments(handler));
+                            }
                         }
                     }
                 }
@@ -467,9 +512,14 @@ macro_rules! build_settings {
                         }
                         Ok(())
                     };
-                    settings = settings.append_document_content_handler(
-                        DocumentContentHandlers::default().doctype(handler),
-                    );
+                    let joinable = sc.joins.contains(&reg)
+                        && matches!(&pending_doc, Some(d) if d.doctype.is_none());
+                    if joinable {
+                        pending_doc = Some(pending_doc.take().unwrap().doctype(handler));
+                    } else {
+                        flush_doc!();
+                        pending_doc = Some(DocumentContentHandlers::default().doctype(handler));
+                    }
                 }
                 HandlerSpec::End { ops } => {
                     let rec2 = rec.clone();
@@ -487,12 +537,19 @@ macro_rules! build_settings {
                         }
                         Ok(())
                     };
-                    settings = settings.append_document_content_handler(
-                        DocumentContentHandlers::default().end(handler),
-                    );
+                    let joinable = sc.joins.contains(&reg)
+                        && matches!(&pending_doc, Some(d) if d.end.is_none());
+                    if joinable {
+                        pending_doc = Some(pending_doc.take().unwrap().end(handler));
+                    } else {
+                        flush_doc!();
+                        pending_doc = Some(DocumentContentHandlers::default().end(handler));
+                    }
                 }
             }
         }
+        flush_el!();
+        flush_doc!();
         for (idx, contents) in sc.bailout.iter().enumerate() {
             let rec2 = rec.clone();
             let contents = contents.clone();
@@ -729,7 +786,7 @@ fn ctor_panic(p: Box<dyn std::any::Any + Send>) -> DriveOut {
     }
 }
 
-/// rewrite_str execution (UTF-8 only): returns Ok(output) / Err(kind) / panic message.
+/// rewrite_str execution (UTF-8 only): Ok(Ok(output)) / Ok(Err(kind)) / Err(panic message).
 pub fn run_rewrite_str(sc: &Scenario) -> Result<Result<Result<String, ErrKind>, String>, String> {
     install_quiet_panic_hook();
     let Ok(text) = std::str::from_utf8(&sc.doc) else {
@@ -743,11 +800,6 @@ pub fn run_rewrite_str(sc: &Scenario) -> Result<Result<Result<String, ErrKind>, 
         sink_calls: 0,
     }));
     let settings = build_settings!(Settings::new(), sc, &rec, lol_html::LocalHandlerTypes);
-    let mut rs = lol_html::RewriteStrSettings::new()
-        .with_strict(sc.strict)
-        .with_enable_esi_tags(sc.esi);
-    // move handlers over: RewriteStrSettings has the same builder API, so rebuild through Settings
-    let _ = &mut rs;
     let r = catch_unwind(AssertUnwindSafe(|| lol_html::rewrite_str(text, settings)));
     Ok(match r {
         Ok(Ok(s)) => Ok(Ok(s)),
@@ -755,5 +807,3 @@ pub fn run_rewrite_str(sc: &Scenario) -> Result<Result<Result<String, ErrKind>, 
         Err(p) => Err(panic_msg(p)),
     })
 }
-
-pub fn rec_events_of_rewrite_str(_sc: &Scenario) {}
